@@ -1,10 +1,10 @@
 /-
-  C01 (readers, wave 12)
+  C01 (readers, wave 12; wave 14: `gf_split` together with `brackets_emptypos`, defect D22 repaired)
 -/
-import TT.Lemmas.More12h
+import TT.Lemmas.More14
 namespace TT.Props.C01Readers
 open TT TT.Tree TT.Spec
-open TT.Lemmas.More12h TT.Lemmas.ExportRT TT.Lemmas.WF TT.Lemmas.Read
+open TT.Lemmas.More12h TT.Lemmas.More14 TT.Lemmas.ExportRT TT.Lemmas.WF TT.Lemmas.Read
 
 /-! ## 1. export: the reader equals the independent decoder on every file the decoder accepts -/
 
@@ -201,23 +201,78 @@ example : (specBrackets false "(NN Haus)".toList).map (·.map WF) = some [false]
 /-- MAIN (rows 1, 2, 12 without the narrowing to option-free records): for EVERY option record without the discobracket
     post-pass — `gf_split`, `gf_separator`, `replace_parens`, `brackets_emptypos`, `brackets_firstid` — the reader returns
     exactly the trees of the grammar, post-processed by `bracketsPost`, numbered from `firstId`, and fails exactly when the
-    grammar rejects the text.  The one excluded combination is `gf_split` together with `brackets_emptypos` (see below). -/
-theorem readBrackets_eq_spec_opts (o : InOpts) (hd : o.disco = false) (ho : o.gfSplit = true → o.emptyPos = false) (text : Str) :
+    grammar rejects the text.  `gf_split` together with `brackets_emptypos` is INCLUDED (wave 14) for every separator that
+    leaves the default label alone (`EmptyOK`: every separator except the single letters `M`, `P`, `T` of `EMPTY`; in
+    particular the default separator) - for the three others see `readBrackets_eq_specG` and the example below it. -/
+theorem readBrackets_eq_spec_opts (o : InOpts) (hd : o.disco = false) (ho : EmptyOK o) (text : Str) :
     match specBrackets o.emptyPos text with
     | some ts => readBrackets o text = .ok ((List.range' (o.firstId.getD 1) ts.length).zip (ts.map (bracketsPost o)))
     | none => ∃ e, readBrackets o text = .error e :=
   readBrackets_spec_opts o hd ho text
 
+/-- the form of waves 12/13 (the two options not together) is a special case -/
+theorem readBrackets_eq_spec_opts_excl (o : InOpts) (hd : o.disco = false) (ho : o.gfSplit = true → o.emptyPos = false) (text : Str) :
+    match specBrackets o.emptyPos text with
+    | some ts => readBrackets o text = .ok ((List.range' (o.firstId.getD 1) ts.length).zip (ts.map (bracketsPost o)))
+    | none => ∃ e, readBrackets o text = .error e :=
+  readBrackets_eq_spec_opts o hd (emptyOK_of_excl o ho) text
+
+/-- `EmptyOK` holds for the default separator, whatever the other options are, and for every separator other than
+    `M`, `P`, `T` -/
+theorem emptyOK_defaultSep (o : InOpts) (h : o.gfSeparator = none) : EmptyOK o := emptyOK_default o h
+
+theorem emptyOK_otherSep (o : InOpts) (h : sepOf o ≠ ['M'] ∧ sepOf o ≠ ['P'] ∧ sepOf o ≠ ['T']) : EmptyOK o := emptyOK_of_sep o h
+
 example : (readBrackets { gfSplit := true, replaceParens := true, firstId := some 3 } "(S (NP-SB (DT the) (NN (cat)) (VP-HD (V ran)))".toList).toOption.isSome
     = (specBrackets false "(S (NP-SB (DT the) (NN (cat)) (VP-HD (V ran)))".toList).isSome := by decide +kernel
 
-/-- row 12 for these option records: accepted exactly when the grammar accepts -/
-theorem readBrackets_isOk (o : InOpts) (hd : o.disco = false) (ho : o.gfSplit = true → o.emptyPos = false) (text : Str) :
+/-- the two options together, default separator: the hypotheses of `readBrackets_eq_spec_opts` hold and the text is
+    accepted -/
+example : EmptyOK { gfSplit := true, emptyPos := true, replaceParens := true } ∧
+    (specBrackets true "(S (NP-SB (U-Bahn) (NN-HD (Zug))) (X-Y x))".toList).isSome = true :=
+  ⟨emptyOK_default _ rfl, by decide +kernel⟩
+
+/-- MAIN, wave 14 (no exception at all): for EVERY option record without the discobracket post-pass the reader returns
+    exactly the trees of the grammar `specBracketsG` - the specification grammar with ONE change: a node with a label token
+    `w` and a body gets label and edge label `lfOf o w` (`gfSplitLabel` under `gf_split`); a token written without a tag,
+    `(w)`, has the word `w` as written and the default label and edge - then `replace_parens`, numbered from `firstId`.
+    `specBracketsG lfPlain = specBrackets` (`specBracketsG_plain`). -/
+theorem readBrackets_eq_specG (o : InOpts) (hd : o.disco = false) (text : Str) :
+    match specBracketsG (lfOf o) o.emptyPos text with
+    | some ts => readBrackets o text = .ok ((List.range' (o.firstId.getD 1) ts.length).zip (ts.map (rpT o)))
+    | none => ∃ e, readBrackets o text = .error e :=
+  readBrackets_specG_opts o hd text
+
+/-- ... and against the FIXED grammar: the same texts are accepted, and the trees correspond node by node (`GfRel`: the
+    fields of a node are those of the grammar's node after `gf_split`, or - for a token with default label and edge, as a
+    token without a tag is - unchanged) -/
+theorem readBrackets_rel_spec (o : InOpts) (hd : o.disco = false) (text : Str) :
+    match specBrackets o.emptyPos text with
+    | some ts => ∃ ts', GfRelL o ts ts' ∧
+        readBrackets o text = .ok ((List.range' (o.firstId.getD 1) ts.length).zip (ts'.map (rpT o)))
+    | none => ∃ e, readBrackets o text = .error e :=
+  readBrackets_rel o hd text
+
+/-- the separator `M` (one of the three exceptions): the token without a tag keeps the default label `EMPTY`, while the
+    post-processing view would split it into `E` + `PTY` - `bracketsPost` does NOT describe the reader here,
+    `specBracketsG` does -/
+example : ((readBrackets { gfSplit := true, emptyPos := true, gfSeparator := some ['M'] } "(S (x))".toList).toOption.map
+      (·.map fun x => x.2.leaves.map fun l => l.fields.label)) = some [["EMPTY".toList]] ∧
+    ((specBrackets true "(S (x))".toList).map
+      (·.map fun t => (bracketsPost { gfSplit := true, emptyPos := true, gfSeparator := some ['M'] } t).leaves.map
+        fun l => l.fields.label)) = some [["E".toList]] ∧
+    ((specBracketsG (lfOf { gfSplit := true, emptyPos := true, gfSeparator := some ['M'] }) true "(S (x))".toList).map
+      (·.map fun t => t.leaves.map fun l => l.fields.label)) = some [["EMPTY".toList]] := by
+  decide +kernel
+
+/-- row 12 for EVERY option record without the discobracket post-pass (wave 14: no exception): accepted exactly when
+    the grammar accepts -/
+theorem readBrackets_isOk (o : InOpts) (hd : o.disco = false) (text : Str) :
     (readBrackets o text).toOption.isSome = (specBrackets o.emptyPos text).isSome := by
-  have h := readBrackets_spec_opts o hd ho text
+  have h := readBrackets_rel o hd text
   cases hs : specBrackets o.emptyPos text with
   | none => rw [hs] at h; obtain ⟨e, he⟩ := h; rw [he]; rfl
-  | some ts => rw [hs] at h; simp only at h; rw [h]; rfl
+  | some ts => rw [hs] at h; obtain ⟨ts', _, h⟩ := h; rw [h]; rfl
 
 theorem WFc_bracketsPost (o : InOpts) (t : Tree) (h : WFc t = true) : WFc (bracketsPost o t) = true := by
   unfold bracketsPost
@@ -244,24 +299,33 @@ theorem WFc_bracketsPost (o : InOpts) (t : Tree) (h : WFc t = true) : WFc (brack
   · exact goodMap_WFc goodMap_replaceParensTree _ h1
   · exact h1
 
-/-- row 10 for the bracket reader: every yielded tree is well formed -/
-theorem readBrackets_WFc (o : InOpts) (hd : o.disco = false) (ho : o.gfSplit = true → o.emptyPos = false) (text : Str)
+/-- row 10 for the bracket reader, EVERY option record without the discobracket post-pass (wave 14: no exception):
+    every yielded tree is well formed -/
+theorem readBrackets_WFc (o : InOpts) (hd : o.disco = false) (text : Str)
     (r : List (Nat × Tree)) (h : readBrackets o text = .ok r) : ∀ x ∈ r, WFc x.2 = true := by
-  have hS := readBrackets_spec_opts o hd ho text
+  have hS := readBrackets_rel o hd text
   cases hs : specBrackets o.emptyPos text with
   | none => rw [hs] at hS; obtain ⟨e, he⟩ := hS; rw [he] at h; cases h
   | some ts =>
     rw [hs] at hS
-    simp only at hS
+    obtain ⟨ts', hrel, hS⟩ := hS
     rw [hS] at h
     cases h
     intro x hx
     have := (List.of_mem_zip hx).2
-    obtain ⟨t, ht, hxt⟩ := List.mem_map.1 this
+    obtain ⟨t', ht', hxt⟩ := List.mem_map.1 this
     rw [← hxt]
-    exact WFc_bracketsPost o t (specBrackets_WFc _ _ _ hs t ht)
+    obtain ⟨t, ht, htt⟩ := gfRelL_mem o ts ts' hrel t' ht'
+    have hw : WFc t' = true := gfRel_WFc o t t' htt (specBrackets_WFc _ _ _ hs t ht)
+    unfold rpT
+    split
+    · exact goodMap_WFc goodMap_replaceParensTree _ hw
+    · exact hw
 
 example : ∃ r, readBrackets { gfSplit := true } "(S (NP-SB (DT the) (NN cat)) (VP-HD (V ran)))(X x)".toList = .ok r ∧ r.length = 2 :=
+  ⟨_, rfl, rfl⟩
+
+example : ∃ r, readBrackets { gfSplit := true, emptyPos := true } "(S (NP-SB (U-Bahn)) (VP-HD (V ran)))(X (x))".toList = .ok r ∧ r.length = 2 :=
   ⟨_, rfl, rfl⟩
 
 theorem gT_rp (o : InOpts) (b : Bool) (t : Tree) : gT { o with replaceParens := b } t = gT o t := by
@@ -273,30 +337,27 @@ theorem gT_rp (o : InOpts) (b : Bool) (t : Tree) : gT { o with replaceParens := 
     exact List.map_congr_left ih
 
 /-- row 11, `replace_parens`: the option is a post-processing by `replaceParensTree` of the result without it
-    (the same function the export reader applies, `IO/Read.lean: exportLoop`) -/
-theorem readBrackets_replaceParens (o : InOpts) (hd : o.disco = false) (ho : o.gfSplit = true → o.emptyPos = false) (text : Str) :
+    (the same function the export reader applies, `IO/Read.lean: exportLoop`); EVERY option record without the
+    discobracket post-pass (wave 14: no exception) -/
+theorem readBrackets_replaceParens (o : InOpts) (hd : o.disco = false) (text : Str) :
     readBrackets { o with replaceParens := true } text =
-      (readBrackets { o with replaceParens := false } text).map (List.map fun x => (x.1, replaceParensTree x.2)) := by
-  rw [readBrackets_sim { o with replaceParens := true } hd ho, readBrackets_sim { o with replaceParens := false } hd ho]
-  have e : baseOpts { o with replaceParens := true } = baseOpts { o with replaceParens := false } := rfl
-  rw [e]
-  cases readBrackets (baseOpts { o with replaceParens := false }) text with
-  | error e => rfl
-  | ok r =>
-    simp only [Except.map, List.map_map]
-    congr 1
-    apply List.map_congr_left
-    intro x _
-    simp only [Function.comp, pT, gT_rp]
-    rfl
+      (readBrackets { o with replaceParens := false } text).map (List.map fun x => (x.1, replaceParensTree x.2)) :=
+  readBrackets_rp o hd text
+
+example : (readBrackets { gfSplit := true, emptyPos := true, replaceParens := true } "(S (NP-SB (U-Bahn)))".toList).toOption.isSome = true := by
+  decide +kernel
 
 /-- row 11, `gf_split`: the option is a post-processing of the result without it: `gfSplitTree`, the function of the
-    TIGER-XML reader, on every node that has a label (`gfSplitRead`) -/
-theorem readBrackets_gfSplit (o : InOpts) (hd : o.disco = false) (he : o.emptyPos = false) (hr : o.replaceParens = false) (text : Str) :
+    TIGER-XML reader, on every node that has a label (`gfSplitRead`).  With `brackets_emptypos` (wave 14) for every
+    separator that leaves the default label alone. -/
+theorem readBrackets_gfSplit (o : InOpts) (hd : o.disco = false)
+    (he : o.emptyPos = true → gfSplitLabel (o.gfSeparator.getD DEFAULT_GF_SEP) DEFAULT_LABEL = (DEFAULT_LABEL, DEFAULT_EDGE))
+    (hr : o.replaceParens = false) (text : Str) :
     readBrackets { o with gfSplit := true } text =
       (readBrackets { o with gfSplit := false } text).map
         (List.map fun x => (x.1, gfSplitRead (o.gfSeparator.getD DEFAULT_GF_SEP) x.2)) := by
-  have h1 := readBrackets_spec_opts { o with gfSplit := true } hd (fun _ => he) text
+  have ho1 : EmptyOK { o with gfSplit := true } := fun _ h => he h
+  have h1 := readBrackets_spec_opts { o with gfSplit := true } hd ho1 text
   have h0 := readBrackets_spec_opts { o with gfSplit := false } hd (fun h => by cases h) text
   simp only at h1 h0
   cases hs : specBrackets o.emptyPos text with
@@ -306,7 +367,7 @@ theorem readBrackets_gfSplit (o : InOpts) (hd : o.disco = false) (he : o.emptyPo
     obtain ⟨e0, he0⟩ := h0
     rw [he1, he0]
     -- both fail; with the same error, by the simulation
-    have := readBrackets_sim { o with gfSplit := true } hd (fun _ => he) text
+    have := readBrackets_sim { o with gfSplit := true } hd ho1 text
     have e : baseOpts { o with gfSplit := true } = { o with gfSplit := false } := by
       cases o; simp only [baseOpts] at *; simp [hr]
     rw [e, he1, he0] at this
@@ -322,15 +383,42 @@ theorem readBrackets_gfSplit (o : InOpts) (hd : o.disco = false) (he : o.emptyPo
     intro t _
     simp [bracketsPost, hr]
 
-/-- with BOTH `gf_split` and `brackets_emptypos` the reader's result is NOT a post-processing of the plain result, and the word
-    of an empty-POS token is cut at the separator: `(U-Bahn)` is read as the word `U` (observed behaviour of
-    `treeinput.brackets`: the label is split when it is read, and only afterwards found to be a word).  This is why the
-    combination is excluded above. -/
-example : ((readBrackets { gfSplit := true, emptyPos := true } "(S (U-Bahn))".toList).toOption.map
-      (·.map fun x => x.2.leaves.map fun l => l.fields.word)) = some [[some "U".toList]] ∧
-    ((readBrackets { emptyPos := true } "(S (U-Bahn))".toList).toOption.map
+/-- the form of waves 12/13 (without `brackets_emptypos`) is a special case -/
+theorem readBrackets_gfSplit_noEmpty (o : InOpts) (hd : o.disco = false) (he : o.emptyPos = false) (hr : o.replaceParens = false) (text : Str) :
+    readBrackets { o with gfSplit := true } text =
+      (readBrackets { o with gfSplit := false } text).map
+        (List.map fun x => (x.1, gfSplitRead (o.gfSeparator.getD DEFAULT_GF_SEP) x.2)) :=
+  readBrackets_gfSplit o hd (fun h => by rw [he] at h; cases h) hr text
+
+/-- with BOTH `gf_split` and `brackets_emptypos` (defect D22, repaired): the word of an empty-POS token is the token as it is
+    written - `(U-Bahn)` is read as the word `U-Bahn`, with or without `gf_split`; the option splits the labels of the other
+    nodes only (`NP-SB` below) -/
+example : ((readBrackets { gfSplit := true, emptyPos := true } "(S (NP-SB (U-Bahn)))".toList).toOption.map
+      (·.map fun x => x.2.leaves.map fun l => l.fields.word)) = some [[some "U-Bahn".toList]] ∧
+    ((readBrackets { gfSplit := true, emptyPos := true } "(S (NP-SB (U-Bahn)))".toList).toOption.map
+      (·.map fun x => x.2.subtrees.map fun s => (s.fields.label, s.fields.edge))) =
+      some [[("S".toList, some "--".toList), ("NP".toList, some "SB".toList), ("EMPTY".toList, some "--".toList)]] ∧
+    ((readBrackets { emptyPos := true } "(S (NP-SB (U-Bahn)))".toList).toOption.map
       (·.map fun x => x.2.leaves.map fun l => l.fields.word)) = some [[some "U-Bahn".toList]] := by decide +kernel
 
+/-- in general: under every option record the words of the reader's trees are the words of the grammar's trees, token by
+    token - no option rewrites a word, except `replace_parens` -/
+theorem readBrackets_words (o : InOpts) (hd : o.disco = false) (hr : o.replaceParens = false) (text : Str)
+    (ts : List Tree) (hs : specBrackets o.emptyPos text = some ts) :
+    ∃ r, readBrackets o text = .ok r ∧
+      r.map (fun x => x.2.leaves.map fun l => l.fields.word) = ts.map (fun t => t.leaves.map fun l => l.fields.word) := by
+  have h := readBrackets_rel o hd text
+  rw [hs] at h
+  obtain ⟨ts', hrel, h⟩ := h
+  refine ⟨_, h, ?_⟩
+  have e : ts'.map (rpT o) = ts' := by
+    conv => rhs; rw [← List.map_id ts']
+    exact List.map_congr_left (fun t _ => by simp [rpT, hr])
+  rw [e, ← gfRelL_words o ts ts' hrel]
+  have : ∀ (l : List (Nat × Tree)), l.map (fun x => x.2.leaves.map fun l => l.fields.word) =
+      (l.map Prod.snd).map (fun t => t.leaves.map fun l => l.fields.word) := by
+    intro l; rw [List.map_map]; rfl
+  rw [this, List.map_snd_zip (by simp [gfRelL_length o ts ts' hrel])]
 
 /-! ## 3. the same option has the same effect in every format (row 11): export and TIGER-XML -/
 
